@@ -169,15 +169,15 @@ From LLB Require Import Engine.ImplInc1 Engine.ImplInc9 Engine.ImplInc10.
    none of them - single-use inputs apart - was recomputed after the row was built; its recorded inputs are keys the rule may request).
    HInv does not mention the environment: the world may change arbitrarily between builds.  impl_hinv_init: a new engine satisfies it.
 
-   PARTIAL - the exact gap to the full statement `impl_build_values_clean`: (1) no rule has discovered dependencies
-   (r_disc = []); (2) the engine has no database attached (is_usedb = false, part of HInv), so a restart from the database is not
-   covered; (3) the rule table is the same in all builds (no rule edits, hence no signature changes); (4) every earlier build
-   returned normally (no cancelled rule is left behind: part of HInv).
-   Single-use requests (stage 3b-1: the restriction r_single = [] of the first version is lifted), must-follow inputs, branch
-   requests, observation of external state (r_obs), changes of the environment between builds, every completion policy [syncp],
-   every schedule and all fuels are covered. *)
+   PARTIAL - the exact gap to the full statement `impl_build_values_clean`: (1) the engine has no database attached
+   (is_usedb = false, part of HInv), so a restart from the database is not covered; (2) the rule table is the same in all builds (no
+   rule edits, hence no signature changes); (3) every earlier build returned normally (no cancelled rule is left behind: part of
+   HInv).  wf_disc (discovered dependencies are rules that observe external state) is the premise of Properties_C01.
+   Single-use requests and discovered dependencies (stages 3b-1, 3b-2: the restrictions r_single = [] and r_disc = [] of the first
+   version are lifted), must-follow inputs, branch requests, observation of external state (r_obs), changes of the environment
+   between builds, every completion policy [syncp], every schedule and all fuels are covered. *)
 Theorem impl_build_values_clean_partial : forall rules F rank ord syncp,
-  wf_rank rules rank -> (forall k, r_disc (rules k) = []) -> (forall k, In RReq (ord k)) ->
+  wf_rank rules rank -> wf_disc rules -> (forall k, In RReq (ord k)) ->
   forall env fuel pfuel cfuel s0 root sched sf m, HInv rules F s0 ->
   ibuild rules env F ord syncp fuel pfuel s0 root sched = (RDone sf, m) -> is_fault sf = None ->
   ((rank root < cfuel)%nat -> res_value (res_of sf root) = cv rules env F cfuel root) /\ HInv rules F sf.
@@ -192,7 +192,7 @@ Print Assumptions impl_hinv_init.
    schedule and fuels ([run_builds]: every build returns a value and no assert fails): every build returns the clean value of its
    requested key for ITS environment.  Same restrictions as above. *)
 Theorem impl_history_values_clean_partial : forall rules F rank ord syncp,
-  wf_rank rules rank -> (forall k, r_disc (rules k) = []) -> (forall k, In RReq (ord k)) ->
+  wf_rank rules rank -> wf_disc rules -> (forall k, In RReq (ord k)) ->
   forall cfuel bs s sf vs, HInv rules F s -> run_builds rules F ord syncp s bs = Some (sf, vs) ->
   (forall b, In b bs -> (rank (bs_root b) < cfuel)%nat) ->
   vs = map (fun b => cv rules (bs_env b) F cfuel (bs_root b)) bs /\ HInv rules F sf.
@@ -205,10 +205,10 @@ From LLB Require Import Engine.SpecC01 Engine.ImplInc11.
 (* One build.  The specification engine Spec.build from any of its states at rest (AtRest, Properties_C01) and the small-step engine
    from any of its states at rest (HInv), the same rule table, environment and requested key: if both return, they return the same
    value - for every dependency-order oracle of the one and every completion policy, schedule and fuels of the other.
-   PARTIAL: the restrictions of impl_build_values_clean_partial (no discovered dependencies, no database,
+   PARTIAL: the restrictions of impl_build_values_clean_partial (no database,
    fixed rule table, no cancelled build before). *)
 Theorem impl_refines_spec_values_partial : forall rules F rank ord syncp order,
-  wf_rank rules rank -> (forall k, r_disc (rules k) = []) -> (forall k, In RReq (ord k)) ->
+  wf_rank rules rank -> wf_disc rules -> (forall k, In RReq (ord k)) ->
   wf_order order ->
   forall env fuel ss k ss' ifuel pfuel s sched sf m, (rank k < fuel)%nat ->
   AtRest F (fixedR rules) ss -> build rules env F order fuel ss k = Ok ss' ->
@@ -220,7 +220,7 @@ Print Assumptions impl_refines_spec_values_partial.
 (* Histories.  Both engines from their initial states, the same list of builds (each with its own environment and requested key):
    the lists of returned values are equal. *)
 Theorem impl_refines_spec_history_partial : forall rules F rank ord syncp order,
-  wf_rank rules rank -> (forall k, r_disc (rules k) = []) -> (forall k, In RReq (ord k)) ->
+  wf_rank rules rank -> wf_disc rules -> (forall k, In RReq (ord k)) ->
   wf_order order ->
   forall fuel bs ssf vs1 sf vs2, (forall b, In b bs -> (rank (bs_root b) < fuel)%nat) ->
   spec_builds rules F order fuel init_state bs = Some (ssf, vs1) ->
